@@ -87,6 +87,9 @@ def build_query(n: int, pat: dict) -> tuple[str, list[str], list[tuple]]:
         else:
             sql = f"DELETE FROM scratch WHERE id >= 1000 AND id < {1000 + k}"
             names, rows = ["number of rows deleted"], [(0,)]
+    elif kind == "nop":
+        sql = pat["sql"]
+        names, rows = ["status"], [("Statement executed successfully.",)]
     elif kind == "values":
         # SELECT over a VALUES clause (snowflake columnN naming)
         m = pat["m"]
@@ -128,6 +131,8 @@ def _random_pattern(r: random.Random) -> dict:
         return {"kind": "starjoin"}
     if x < 0.93:
         return {"kind": "dml", "which": r.choice(["insert", "update", "delete"])}
+    if x < 0.96:
+        return {"kind": "nop", "sql": r.choice(["CALL some_proc(1)", "call other()", "GRANT ALL ON big TO ROLE x"])}
     return {"kind": "values", "m": r.randint(1, 4)}
 
 
@@ -143,6 +148,7 @@ FIXED_PATTERNS = [
     {"kind": "dml", "which": "update"},
     {"kind": "dml", "which": "delete"},
     {"kind": "dml", "which": "insert"},
+    {"kind": "nop", "sql": "CALL some_proc(1)"},
 ]
 
 
@@ -195,7 +201,7 @@ _state: dict[str, Any] = {}
 
 
 def setup_worker(env: core.Env) -> None:
-    fs = core.new_fs()
+    fs = core.new_fs(nop_regexes=[r"^CALL\b", r"^GRANT\b"])
     conn = fs.connect("db1", "s1")
     raw = core.raw_root(fs).cursor()
     raw.execute(
@@ -283,6 +289,8 @@ def run_case(case: dict, env: core.Env) -> None:
         if kind == "rowcount":
             env.count("cmp_rowcount")
             want_rc = rows[0][0] if pat["kind"] == "dml" else len(rows)
+            if pat["kind"] == "nop":
+                want_rc = 1
             if cur.rowcount != want_rc:
                 env.witness("C05/rowcount", f"rowcount={cur.rowcount} expected {want_rc} for {sql}")
             continue
